@@ -369,9 +369,12 @@ func (s *UtxoStore) VerifWF() bool { return s != nil && s.bucketMeta != nil }
 //@   ensures err == nil && len(k) > 0 ==> (result != nil) == bhas(ns, k)
 //@   ensures result != nil ==> len(result) > 0 && strOf(result) == bval(ns, k)
 
+// format typestate of the pending bucket: only values produced by valueUnmined (receive time + serialised
+// transaction) may be stored in it, because every reader parses that format
 //@ func putRawUnmined
 //@   props C09 C18 C19
 //@   requires ns != nil
+//@   requires[C09] ghostb("unminedFmt", strOf(v))
 //@   modifies bmap(ns)
 //@   ensures err == nil ==> len(k) > 0 && len(v) > 0 && bhas(ns, k) && bval(ns, k) == strOf(v) && bsameExcept(ns, k)
 //@   ensures err != nil ==> bsame(ns)
@@ -576,10 +579,20 @@ func (s *UtxoStore) VerifWF() bool { return s != nil && s.bucketMeta != nil }
 // ---- C01 (rollback lemma): when a rolled-back transaction's debit is undone, the unspent marker re-created for the
 // credit it had spent carries the block of that credit (bytes 32..72 of the credit key), never anything else
 //@ func (*TxStore).Rollback
-//@   props C01
+//@   props C01 C09
 //@   nopanic off
 //@   requires s != nil && s.bucketMeta != nil && s.ksmgr != nil && s.utxoStore != nil && tx != nil
 //@   modifies *
-//@   only fetchNsUnspentValueFromRawCredit
+//@   only fetchNsUnspentValueFromRawCredit valueUnmined putRawUnmined FetchBucket
 //@   dead returns 1
+//@   at "err = putRawUnmined(nsUnmined, txHash[:], unminedVal)" assert[C09] len(unminedVal) >= 8 && strOf(unminedVal[8:]) == ghosts("txDBBytes", &rec.MsgTx)
 //@   at "err = putRawUnspent(nsUnspent, canonicalUnspentKey(ma.Account(), &prevOut.Hash, prevOut.Index), unspentVal)" assert[C01] len(unspentVal) == 40 && len(credKey) >= 72 && bytesEq(unspentVal, 0, credKey, 32, 40)
+
+// ---- C09 (rollback re-insert format): what Rollback puts into the pending bucket for a disconnected transaction is
+// a value of that bucket's format: 8 bytes of receive time followed by the serialisation of that transaction
+//@ func valueUnmined
+//@   props C09 C19
+//@   requires rec != nil
+//@   ensures err != nil ==> result == nil
+//@   ensures err == nil ==> fresh(result) && len(result) >= 8 && strOf(result[8:]) == ghosts("txDBBytes", &rec.MsgTx)
+//@   ensures err == nil ==> ghostb("unminedFmt", strOf(result))
